@@ -474,7 +474,7 @@ func runC19(x *X) *Violation {
 	for _, o := range x.E.Owned {
 		if o.What == "default" {
 			rv := reflect.ValueOf(o.V)
-			if rv.Kind() == reflect.Slice && rv.Len() > 0 {
+			if rv.Kind() == reflect.Slice && rv.Cap() > 0 {
 				defaultPtrs[o.Node] = rv.Pointer()
 			}
 		}
@@ -483,7 +483,7 @@ func runC19(x *X) *Violation {
 		var is []inst
 		instances(root, res.destPtr.Elem(), "", &is)
 		for _, in := range is {
-			if in.n.Kind == "slice" && in.v.Len() > 0 {
+			if in.n.Kind == "slice" && in.v.Cap() > 0 {
 				if p, ok := defaultPtrs[in.n.ID]; ok && in.v.Pointer() == p {
 					return &Violation{Class: "C19/destination-aliases-default mode=" + when,
 						Detail: fmt.Sprintf("the destination slice at %q shares its backing array with the schema's Default", in.path)}
